@@ -12,6 +12,7 @@ for f in sorted(glob.glob(os.path.join(V, "seeded", "*", "meta.json"))):
     det = "quick" if q.get("detected") else ("thorough" if t and t.get("detected") else "NOT DETECTED")
     if det == "NOT DETECTED" and m.get("also_caught_by"):
         a = m["also_caught_by"]; det = f"{a['property']} {a['tier']}"; rule = a["rule"]
+    if m.get("superseded") and det == "NOT DETECTED": det = "n/a (superseded, see meta.json)"
     rows.append((name, m["property"], m.get("summary", "").replace("|", "/"), m.get("needs", "").replace("|", "/"), det, rule))
 with open(os.path.join(V, "seeded", "RESULTS.md"), "w") as f:
     f.write("# Seeded property-breaking changes and which check catches them\n\n"
